@@ -114,10 +114,12 @@ Fixpoint dev_eqb (a b : dev_o) : bool :=
          end) e1 e2 &&
       Bool.eqb b1 b2
   end.
+(* a refusal is compared up to what the property says about it: "the library's error type" (which
+   class of the UpnpError family is raised first depends on the order in which documents are visited) *)
 Definition obs_eqb (a b : observation) : bool :=
   match a, b with
   | FOk x, FOk y => dev_eqb x y
-  | FRaise x, FRaise y => fexn_eqb x y
+  | FRaise x, FRaise y => fexn_eqb x y || (lib_error x && lib_error y)
   | _, _ => false
   end.
 
